@@ -630,6 +630,15 @@ pub fn tier_shapes(thorough: bool) -> Vec<Shape> {
     v.push(Shape { feats: vec![vec![one(0, 1, 2)[0].clone(), one(0, 1, 36)[0].clone()]], parsing_finished: false, parse_err: false, twins: false });
     v.push(Shape { feats: vec![vec![one(1, 1, 2)[0].clone(), one(1, 1, 36)[0].clone()]], parsing_finished: false, parse_err: false, twins: false });
     v.push(Shape { feats: vec![one(0, 1, 2), one(0, 1, 35)], parsing_finished: false, parse_err: false, twins: false });
+    // features without any content (an empty bracket: Started, Finished) behind a feature
+    // that is still running, one and two of them, and in front of it
+    for feats in [
+        vec![one(0, 1, 2), vec![]],
+        vec![one(0, 1, 2), vec![], vec![]],
+        vec![vec![], one(0, 1, 3)],
+    ] {
+        v.push(Shape { feats, parsing_finished: false, parse_err: false, twins: false });
+    }
     // abandoned retries: at feature level, inside a rule, next to a complete scenario, before
     // another feature
     let cut = |rule: usize| ScenShape { rule, attempts: 1, events: 3, cut: true };
